@@ -37,6 +37,9 @@ func (vc *VC) buildQuery(o *Obligation, extra []Term, getValues []string) string
 	for _, t := range extra {
 		asserts = append(asserts, t.S)
 	}
+	for _, t := range vc.axioms {
+		asserts = append(asserts, t.S)
+	}
 	if o.Cover {
 		// cover: is the path condition satisfiable? (no slicing: dropping
 		// hypotheses could hide a contradiction)
